@@ -759,6 +759,9 @@ class Fxp():
             if vdtype.kind in 'iu' and vdtype.itemsize < 8:
                 # (a list of narrow NumPy integers: the values are scaled in their value type, where they would wrap around)
                 vdtype = int
+            elif vdtype.kind == 'f' and vdtype.itemsize < 8:
+                # (a list of float16 / float32 scalars: scaling by 2**n_frac in that type overflows to inf; arrays of them are scaled as float)
+                vdtype = float
         
         # scaling conversion
         # (the object keeps its scale and bias whatever the form of this input: a raw code is stored as it is, but read back scaled)
